@@ -952,32 +952,34 @@ STALE_CLASS = ("a directory that was moved out of the tree keeps its watch and m
 
 
 def _touches_stale_name(path, hist):
-    """Does the directory's provenance chain pass through a name that a moved-out directory held before?"""
+    """Does the directory's provenance chain pass through a name that a directory held when it was moved out, with
+    a drain between that move-out and the re-use (so that only the stale watch - not a race - explains it)?"""
     ops = [op for op, _ in hist]
-    # names held by directories at the moment they were moved out (kind from a replay of the model is not needed:
-    # a moved-out file has no watch, and a file never appears in a directory's provenance chain)
+    paces = [p for _, p in hist]
     p = path
     names = {p}
-    first = 0
+    chain_idx = []
     for i in range(len(ops) - 1, -1, -1):
         op = ops[i]
         if op[0] == "rename" and (p == op[2] or inside(p, op[2])):
             p = op[1] + p[len(op[2]):]
             names.add(p)
+            chain_idx.append(i)
         elif op[0] == "move_back" and (p == op[2] or inside(p, op[2])):
-            names.add(p)
-            first = i
+            chain_idx.append(i)
             break
         elif op[0] in ("mkdir", "makedirs", "mktree", "move_in_dir") and (p == op[1] or inside(p, op[1]) or p == parent(op[1])):
-            first = i
+            chain_idx.append(i)
             break
     for i, op in enumerate(ops):
-        if op[0] == "move_out" and i < len(ops):
-            out = op[1]
-            if any(n == out or inside(n, out) or inside(out, n) for n in names) and i <= max(first, 0) + len(ops):
-                # the move-out must precede the last operation of the chain
-                if i < len(ops) - 1:
-                    return True
+        if op[0] != "move_out":
+            continue
+        out = op[1]
+        if not any(n == out or inside(n, out) or inside(out, n) for n in names):
+            continue
+        for j in chain_idx:
+            if j > i and any(pc in ("drain", "drain-soft") for pc in paces[i:j]):
+                return True
     return False
 
 
